@@ -34,7 +34,7 @@ class HistSim(Sim):
     PROBES = ["root_was_root", "root_was_interior", "retained_crossed_again", "leaf_as_root", "leaf_as_root_again",
               "reuse_of_differentiated_node", "no_reset_between_calls", "reset_between_calls", "sweep_under_retain_ctx",
               "unreachable_tensor_with_grad", "fault_mid_sweep", "retry_after_fault", "rejected_backward", "repeat_same_root",
-              "zero_via_tensor", "zero_via_module", "zero_via_optimizer", "forward_fault", "no_grad_span", "nonfinite_upstream_gradient"]
+              "zero_via_tensor", "zero_via_module", "zero_via_optimizer", "forward_fault", "no_grad_span", "nonfinite_upstream_gradient", "same_op_same_geometry_by_second_user"]
     RULE = ("one run = a seeded history of build/backward/retain/reset/fault events over shared leaves; distinct = hash of the event-kind "
             "sequence with, per backward, the root's role (fresh/former root/former interior/leaf) and whether retained nodes were crossed; "
             "non-trivial = at least two accepted backward calls")
@@ -80,6 +80,8 @@ class HistSim(Sim):
         st.n_backward = 0
         st.since_reset_calls = 0
         st.last_fault_root = None
+        # what a re-used operand list holds after a concat/stack call: requires-grad leaves of this history
+        ops.LIST_DECOYS = lambda st=st: [st.T[i] for i in sorted(st.T) if st.meta[i]["kind"] == "leaf" and st.meta[i]["rg"]][:3]
         return st
 
     # ------------------------------------------------------------------ generation
@@ -125,12 +127,42 @@ class HistSim(Sim):
         if r < kn["p_reset"] + 0.16:
             return {"k": "gc"}
         if len(nodes) < 14:
+            if nodes and rng.random() < 0.1:
+                ev = self._gen_twin(rng, st, nodes)
+                if ev is not None:
+                    return ev
             ev = self._gen_op(rng, st)
             if ev is not None:
                 return ev
         if rg_all:
             return self._gen_backward(rng, st, rg_all)
         return self._gen_leaf(rng, st)
+
+    def _gen_twin(self, rng, st, nodes):
+        """A second user issues an EARLIER operation again - same op, same arguments, same operand shapes/dtypes, other values -
+        before (or after) the first graph is differentiated: anything the library keeps per geometry rather than per call would be shared."""
+        src = st.meta[rng.choice(nodes)]["ev"]
+        if any(i not in st.T for i in src["in"]) or src["op"] in ("unbind",):
+            return None
+        evs, twin, nid = [], {}, st.next_id
+        for i in src["in"]:
+            if i in twin:
+                continue
+            t = st.T[i]
+            if t.data.dtype.kind != "f" or t.data.size > 4096:
+                return None
+            if rng.random() < 0.25:
+                twin[i] = i                 # this operand is shared by the two users
+                continue
+            vals = small_values(rng, t.data.shape, np.float64, -2, 2, avoid_zero=True).astype(t.data.dtype)
+            if (t.data > 0).all():
+                vals = np.abs(vals) + t.data.dtype.type(0.125)
+            evs.append({"k": "leaf", "id": nid, "data": enc(vals), "rg": bool(t.requires_grad), "wrap": "tensor", "actor": rng.randrange(st.knobs["actors"])})
+            twin[i] = nid
+            nid += 1
+        evs.append({"k": "op", "op": src["op"], "in": [twin[i] for i in src["in"]], "args": src["args"], "out": [nid], "actor": rng.randrange(st.knobs["actors"]), "twin": True})
+        st.pending.extend(evs[1:])
+        return evs[0]
 
     def _gen_leaf(self, rng, st):
         kn = st.knobs
@@ -379,7 +411,8 @@ class HistSim(Sim):
             t = SG.nn.Parameter(t)
         i = ev["id"]
         st.T[i] = t
-        st.meta[i] = {"kind": "leaf", "rg": bool(ev["rg"]), "inputs": [], "wrap": ev["wrap"]}
+        # (a tensor created inside a no_grad span does not require grad whatever was asked: C07's clause, taken as given here)
+        st.meta[i] = {"kind": "leaf", "rg": bool(ev["rg"]) and st.nograd_ctx is None, "inputs": [], "wrap": ev["wrap"]}
         st.ledger[i] = None
         st.abs[i] = 0.0
         st.next_id = max(st.next_id, i + 1)
@@ -428,7 +461,7 @@ class HistSim(Sim):
                 res = ops.as_list(ops.apply_op(SG, ev["op"], xs, ev["args"]))
             SEAM.disarm()
         except SimFault as e:
-            st.faults["forward_" + fault["kind"]] += 1
+            st.faults[f"forward_{fault.get('seam', 'kernel')}_{fault['kind']}"] += 1
             st.probes["forward_fault"] += 1
             SEAM.disarm()
             self._check_unchanged(st, snap, "C04.unreachable", "forward op aborted by an injected fault")
@@ -445,6 +478,8 @@ class HistSim(Sim):
         SEAM.disarm()
         if any(i in st.was_root or i in st.was_interior for i in ev["in"]):
             st.probes["reuse_of_differentiated_node"] += 1
+        if ev.get("twin"):
+            st.probes["same_op_same_geometry_by_second_user"] += 1
         for k, (i, t) in enumerate(zip(ev["out"], res)):
             st.T[i] = t
             st.meta[i] = {"kind": "node", "ev": ev, "k": k, "rg": bool(t.requires_grad), "inputs": list(ev["in"])}
